@@ -1,4 +1,7 @@
 import Ggql.Wire
 import Ggql.Model.Skip
+import Ggql.Model.Registry
+import Ggql.Proofs.Registry
 import Ggql.Props.C09
 import Ggql.Props.C09Inst
+import Ggql.Props.C19
